@@ -528,6 +528,13 @@ pub fn check_arrangement(a: &Arrangement, out: &mut Vec<Failure>) -> (bool, bool
                 if got_read != canon {
                     out.push(Failure::new("C18:resolved-files-differ", detail(format!("{got_read:?}"), format!("{canon:?}"))));
                 }
+                // one diagnostics list per include site, in source order (depth first), each
+                // tagged with the file that site resolves to
+                // (an unreadable include has a list too, tagged with the path as written)
+                let list_paths: Vec<PathBuf> = g.tagged.iter().skip(1).map(|(p, _)| p.clone()).filter(|p| p.is_file()).collect();
+                if list_paths != canon {
+                    out.push(Failure::new("C18:include-lists-differ-from-include-sites", detail(format!("{list_paths:?}"), format!("{canon:?}"))));
+                }
                 // diagnostics raised inside an included file are tagged with its canonical path
                 for (path, errs) in g.tagged.iter().skip(1) {
                     if errs.is_empty() {
